@@ -252,14 +252,54 @@ package encoder
 //@   callassume compactAndWrite: apart(dst, ctxBuf)
 //@   assigns M, RuntimeContext.Buf
 
+// The indenting copiers mirror the compacting ones: they append only, keep what was in dst, never touch
+// src and stay apart from it. (The prefix and the indent unit are only read; if a caller let them overlap
+// dst's spare capacity the copied bytes would change, but nothing stated here would.)
 //@ func indentValue(dst, src, indentNum, cursor, prefix, indentBytes, escape) (res, c, err)
-//@   props C18
-//@   trusted recursive token copier; body not yet under contract
+//@   props C18 C06
 //@   requires bufOK(src, cursor) && apart(dst, src)
-//@   ensures err == nil ==> len(res) >= len(dst) && cursor < c && c < len(src)
+//@   ensures err == nil ==> copied(dst, res, src, cursor, c)
 //@   ensures err == nil ==> forall k :: 0 <= k && k < len(dst) ==> res[k] == old(dst[k])
 //@   ensures forall k :: 0 <= k && k < len(src) ==> src[k] == old(src[k])
 //@   assigns M
+//@   loop 1: invariant old(cursor) <= cursor && cursor < len(src)
+//@   loop 1: decreases len(src) - cursor
+
+//@ func indentObject(dst, src, indentNum, cursor, prefix, indentBytes, escape) (res, c, err)
+//@   props C18 C06
+//@   requires bufOK(src, cursor) && apart(dst, src)
+//@   ensures err == nil ==> copied(dst, res, src, cursor, c)
+//@   ensures err == nil ==> forall k :: 0 <= k && k < len(dst) ==> res[k] == old(dst[k])
+//@   ensures forall k :: 0 <= k && k < len(src) ==> src[k] == old(src[k])
+//@   assigns M
+//@   loop 1: invariant old(cursor) < cursor && bufOK(src, cursor) && apart(dst, src) && len(dst) >= old(len(dst))
+//@   loop 1: invariant forall k :: 0 <= k && k < old(len(dst)) ==> dst[k] == old(dst[k])
+//@   loop 1: invariant forall k :: 0 <= k && k < len(src) ==> src[k] == old(src[k])
+//@   loop 1: decreases len(src) - cursor
+//@   loop 2: invariant apart(dst, src) && len(dst) >= old(len(dst))
+//@   loop 2: invariant forall k :: 0 <= k && k < old(len(dst)) ==> dst[k] == old(dst[k])
+//@   loop 2: invariant forall k :: 0 <= k && k < len(src) ==> src[k] == old(src[k])
+//@   loop 3: invariant apart(dst, src) && len(dst) >= old(len(dst))
+//@   loop 3: invariant forall k :: 0 <= k && k < old(len(dst)) ==> dst[k] == old(dst[k])
+//@   loop 3: invariant forall k :: 0 <= k && k < len(src) ==> src[k] == old(src[k])
+
+//@ func indentArray(dst, src, indentNum, cursor, prefix, indentBytes, escape) (res, c, err)
+//@   props C18 C06
+//@   requires bufOK(src, cursor) && apart(dst, src)
+//@   ensures err == nil ==> copied(dst, res, src, cursor, c)
+//@   ensures err == nil ==> forall k :: 0 <= k && k < len(dst) ==> res[k] == old(dst[k])
+//@   ensures forall k :: 0 <= k && k < len(src) ==> src[k] == old(src[k])
+//@   assigns M
+//@   loop 1: invariant old(cursor) < cursor && bufOK(src, cursor) && apart(dst, src) && len(dst) >= old(len(dst))
+//@   loop 1: invariant forall k :: 0 <= k && k < old(len(dst)) ==> dst[k] == old(dst[k])
+//@   loop 1: invariant forall k :: 0 <= k && k < len(src) ==> src[k] == old(src[k])
+//@   loop 1: decreases len(src) - cursor
+//@   loop 2: invariant apart(dst, src) && len(dst) >= old(len(dst))
+//@   loop 2: invariant forall k :: 0 <= k && k < old(len(dst)) ==> dst[k] == old(dst[k])
+//@   loop 2: invariant forall k :: 0 <= k && k < len(src) ==> src[k] == old(src[k])
+//@   loop 3: invariant apart(dst, src) && len(dst) >= old(len(dst))
+//@   loop 3: invariant forall k :: 0 <= k && k < old(len(dst)) ==> dst[k] == old(dst[k])
+//@   loop 3: invariant forall k :: 0 <= k && k < len(src) ==> src[k] == old(src[k])
 
 //@ func doIndent(dst, src, prefix, indentStr, escape) (res, err)
 //@   props C18 C03
